@@ -140,6 +140,14 @@ fn run_rates(sc: &Value, t: &mut Tracer) {
 				let _ = gw.wait();
 				t.ev(json!({"a": "load", "t": id}));
 			}
+			// the handle of the first (parent) track is dropped; the track lives on as long as a nested track does
+			"DropParent" => {
+				let _ = gw.call(|w| {
+					w.parent = None;
+					Value::Null
+				});
+				t.ev(json!({"a": "tau"}));
+			}
 			"GEnqueue" => {
 				let _ = gw.finish();
 				t.ev(json!({"a": "enq"}));
@@ -188,8 +196,12 @@ fn run_measure(sc: &Value, t: &mut Tracer) {
 	let rates: Vec<u32> = sc["rates"].as_array().unwrap().iter().map(|x| x.as_u64().unwrap() as u32).collect();
 	let switch_ms = sc["switch_ms"].as_u64().unwrap_or(u64::MAX);
 	t.reset(json!({"mode": "measure", "src": sc["src"]}));
-	let cbf = 4usize;
-	let mut sim = kv::scene::Sim::new(Capacities::default(), MainTrackBuilder::new(), 4, rates[0]);
+	// unit of the measured times: 1000 (milliseconds) or 1000000 (microseconds, for sub-millisecond delay times at audio rates)
+	let unit = sc["unit"].as_i64().unwrap_or(1000);
+	let cbf = sc["cbf"].as_u64().unwrap_or(4) as usize;
+	let limit = sc["limit"].as_u64().unwrap_or(400);
+	let delay_us = sc["delay_us"].as_u64().unwrap_or(500_000);
+	let mut sim = kv::scene::Sim::new(Capacities::default(), MainTrackBuilder::new(), cbf.min(128), rates[0]);
 	let src_rate = 8u32;
 	let mut clock = None;
 	let secs1000: i64;
@@ -220,7 +232,7 @@ fn run_measure(sc: &Value, t: &mut Tracer) {
 			let mut tr = sim
 				.manager
 				.add_sub_track(TrackBuilder::new().with_effect(
-					DelayBuilder::new().delay_time(Duration::from_millis(500)).feedback(Decibels(-6.0)).mix(Mix(0.5)),
+					DelayBuilder::new().delay_time(Duration::from_micros(delay_us)).feedback(Decibels(-6.0)).mix(Mix(0.5)),
 				))
 				.unwrap();
 			if rates.len() > 1 {
@@ -234,7 +246,7 @@ fn run_measure(sc: &Value, t: &mut Tracer) {
 				std::mem::forget(h);
 			}
 			std::mem::forget(tr);
-			secs1000 = 500;
+			secs1000 = delay_us as i64 * unit / 1_000_000;
 		}
 	}
 	let mut ms = 0i64; // elapsed device time
@@ -245,8 +257,8 @@ fn run_measure(sc: &Value, t: &mut Tracer) {
 	let mut second: Option<i64> = None;
 	let mut result: Option<i64> = None;
 	let mut silent_run = 0;
-	for _ in 0..400 {
-		if ms as u64 >= switch_ms && rates.len() > 1 && rate != rates[1] {
+	for _ in 0..limit {
+		if (ms * 1000 / unit) as u64 >= switch_ms && rates.len() > 1 && rate != rates[1] {
 			rate = rates[1];
 			rmin = rmin.min(rate);
 			sim.renderer.on_change_sample_rate(rate);
@@ -255,7 +267,7 @@ fn run_measure(sc: &Value, t: &mut Tracer) {
 		let res = sim.callback(cbf);
 		for f in 0..cbf {
 			let x = res.out[2 * f];
-			let now = ms + (f as i64 * 1000) / rate as i64;
+			let now = ms + (f as i64 * unit) / rate as i64;
 			if what == "filter" {
 				if x >= 0.5 && result.is_none() {
 					result = Some(now - 200);
@@ -274,12 +286,12 @@ fn run_measure(sc: &Value, t: &mut Tracer) {
 				silent_run += 1;
 			}
 		}
-		ms += (cbf as i64 * 1000) / rate as i64;
+		ms += (cbf as i64 * unit) / rate as i64;
 		match what {
 			"clock" => {
 				if clock.as_ref().unwrap().time().ticks >= 4 {
 					// the published time is that of the start of the callback just run
-					result = Some(ms - (cbf as i64 * 1000) / rate as i64);
+					result = Some(ms - (cbf as i64 * unit) / rate as i64);
 					break;
 				}
 			}
@@ -290,7 +302,7 @@ fn run_measure(sc: &Value, t: &mut Tracer) {
 			}
 			"sound" => {
 				if first.is_some() && silent_run > 40 {
-					result = Some(last.unwrap() - first.unwrap() + 1000 / rate as i64);
+					result = Some(last.unwrap() - first.unwrap() + unit / rate as i64);
 					break;
 				}
 			}
@@ -303,7 +315,7 @@ fn run_measure(sc: &Value, t: &mut Tracer) {
 		}
 	}
 	t.ev(json!({"a": "measure", "what": what, "ms": result.unwrap_or(-1), "secs1000": secs1000, "rmin": rmin,
-		"cbf": cbf, "srcms": 1000 / src_rate as i64, "rates": rates}));
+		"cbf": cbf, "srcms": unit / src_rate as i64, "unit": unit, "rates": rates}));
 	t.ev(json!({"a": "end"}));
 }
 
